@@ -59,13 +59,14 @@ theorem sps_trace_sep (so : Bool) (f : Nat) (tr : Trace) (os : List Op) (a : Tra
     · have e5 := ops_get_stable "chroma_format_idc" hc2 (by decide)
       have e6 := ops_get_stable "chroma_format_idc" hc1 (by decide)
       rw [Trace.get_snoc_same] at e6
+      unfold Trace.nat at hp2
       rw [Trace.get_snoc_same] at hp2
-      have hc : c = 3 := by simpa using hp2
+      have hc : c.toNat % 256 = 3 := by simpa using hp2
       intro _
       unfold chromaFormat
       rw [hprof, if_pos rfl]
       unfold Trace.nat
-      rw [e2, e5, e6, hc]; rfl
+      rw [e2, e5, e6]; exact hc
     · have e5 := ops_get_stable "separate_colour_plane_flag" hc2 (by decide)
       rw [Trace.get_snoc_ne _ _ _ _ (by decide)] at e5
       intro h1
